@@ -28,6 +28,12 @@ the replay of the reported violation was re-run on the mutant (violated) and on 
 broken tie without a failing input.  Unconfirmed or not yet checkable changes wait in
 `seeded/_pending/` (%s).
 
+After every batch of `fix:` commits the kept changes are swept again (`tools/seedall.sh`, last full sweep after the
+76th fix commit: every change confirmed and caught again); patches whose hunk a fix had touched are re-based by hand
+keeping their intent, the previous file stays next to them as `patch.before-rebase*.diff`.  Rounds: 1-3b early
+changes, 4 "multi-step history", 5 "re-open a repaired defect for some inputs", 6 "narrow value class / boundary /
+two features together / one of several equivalent paths" (`origin` in meta.json).
+
 | seeded change | needs | caught by | how |
 |---------------|-------|-----------|-----|
 %s
